@@ -659,7 +659,7 @@ class pdb2sql(pdb2sql_base):
         data = []
         for i, val in enumerate(values):
 
-            tmp_data = [v for v in val]
+            tmp_data = [v.item() if isinstance(v, np.generic) else v for v in val]
 
             # here the conversion of the indexes is a bit annoying
             tmp_data += [rowID[i] + 1]
@@ -682,10 +682,11 @@ class pdb2sql(pdb2sql_base):
         Example:
             >>> db.update_column('x',np.random.rand(10),index=list(range(10)))
         """
+        values = [v.item() if isinstance(v, np.generic) else v for v in values]
         if index is None:
             data = [[v, i + 1] for i, v in enumerate(values)]
         else:
-            data = [[v, ind + 1] for v, ind in zip(values, index)]
+            data = [[v, int(ind) + 1] for v, ind in zip(values, index)]
 
         query = 'UPDATE {tablename} SET {cn}=? WHERE rowID=?'.format(tablename=tablename,
                                                                      cn=colname)
